@@ -52,8 +52,13 @@ type specNode struct {
 	Blocks []blockDef
 }
 
+// the block definition the specification applies to a block of type t. A type named more than
+// once: the LAST entry wins — spec() keys the ObjectSpec by the type (a later entry replaces the
+// earlier one), and hclsyntax, the JSON body, hiddenBlocks and (since /repo 5052f97) expandBlocks
+// all decode a block under the last schema header of its type. The generators never name a type
+// twice (coq() checks it: the Coq schemata tree assumes distinct types, as [conforms] does).
 func (n *specNode) block(t string) *blockDef {
-	for i := range n.Blocks {
+	for i := len(n.Blocks) - 1; i >= 0; i-- {
 		if n.Blocks[i].Type == t {
 			return &n.Blocks[i]
 		}
@@ -105,7 +110,12 @@ func (n *specNode) coq() string {
 	for _, a := range n.Attrs {
 		as = append(as, "("+hv.CoqStr(a.Name)+", "+hv.CoqBool(a.Required)+")")
 	}
+	seen := map[string]bool{}
 	for _, b := range n.Blocks {
+		if seen[b.Type] {
+			panic("c18: a specification names block type " + b.Type + " twice (spec() would drop an entry)")
+		}
+		seen[b.Type] = true
 		sub := "SJust"
 		if b.Kind != kAttrs {
 			sub = b.Nested.coq()
